@@ -34,6 +34,18 @@ pub struct Exchange {
 }
 
 fn gen_body(t: &mut Tape) -> Vec<u8> {
+    let body = gen_plain_body(t);
+    // a fifth of the bodies carry the anti-XSSI guard the response parser strips (the signature covers it all the same)
+    if t.chance(1, 5) {
+        let mut b = b")]}'\n".to_vec();
+        b.extend(body);
+        b
+    } else {
+        body
+    }
+}
+
+fn gen_plain_body(t: &mut Tape) -> Vec<u8> {
     match t.weighted(&[3, 3, 2, 1]) {
         0 => {
             let n = t.choose(4);
@@ -146,7 +158,7 @@ fn ex_json(ex: &Exchange) -> Value {
 /// or None if the mutation degenerates to the authentic exchange.
 type Mutated = (String, Option<Vec<u8>>, Vec<u8>, Vec<u8>, u64, [u8; 32]);
 
-const N_STRUCT: usize = 27;
+const N_STRUCT: usize = 29;
 
 fn flip(v: &mut [u8], bit: usize) {
     v[bit / 8] ^= 1 << (bit % 8);
@@ -250,6 +262,17 @@ fn structural(ex: &Exchange, kind: usize, t: &mut Tape) -> Option<Mutated> {
             let mut other = ex.resp.clone();
             other.push(b' ');
             Some(("response body extended by one byte".into(), w(&plain), ex.req.clone(), other, id, ex.nonce))
+        }
+        27 => {
+            // the anti-XSSI guard put in front of the response body (the signed digest covers the body as received)
+            let mut other = b")]}'\n".to_vec();
+            other.extend_from_slice(&ex.resp);
+            Some(("anti-XSSI guard prepended to the response body".into(), w(&plain), ex.req.clone(), other, id, ex.nonce))
+        }
+        28 => {
+            // ... or cut from a body that carries it
+            let other = ex.resp.strip_prefix(b")]}'\n")?.to_vec();
+            Some(("anti-XSSI guard cut from the response body".into(), w(&plain), ex.req.clone(), other, id, ex.nonce))
         }
         26 => {
             // an unregistered key id, with a signature that is perfectly valid for that id under a registered key
